@@ -77,6 +77,29 @@ def nonmutation(rep):
     # each result is its own copy of that working graph
     res = [(n, b) for n, b in pfind("$its = $$c", fi.node, into_nested=False) if isinstance(n, ast.Assign) and is_deepcopy(n.value)
            and n.value.args and norm(n.value.args[0]) == g]
+    if not res and g:
+        # the working copy itself may be handed out ONCE, for the last mapping of the loop (nothing reads it afterwards):
+        #     for i, m in enumerate(M): its = g if i == len(M) - 1 else deepcopy(g)
+        fdefs = local_defs(fi.node)
+        for n, b in pfind("$its = $$c", fi.node, into_nested=False):
+            if not isinstance(n, ast.Assign):
+                continue
+            mm = pmatch(f"{g} if $i == $last else deepcopy({g})", n.value) or pmatch(f"deepcopy({g}) if $i != $last else {g}", n.value)
+            if mm is None:
+                continue
+            lps_ = [l for l in walk_local(fi.node) if isinstance(l, ast.For) and any(x is n for x in ast.walk(l))]
+            lp_ = lps_[-1] if lps_ else None
+            em = pmatch(f"enumerate($M)", lp_.iter) if lp_ is not None else None
+            last_src = origin(fdefs, ast.Name(id=mm["last"], ctx=ast.Load()))
+            counter_ok = em is not None and isinstance(lp_.target, ast.Tuple) and norm(lp_.target.elts[0]) == mm["i"] and len(fdefs.get(mm["i"], [])) == 1
+            last_ok = em is not None and pmatch(f"len({em['M']}) - 1", last_src) is not None and len(fdefs.get(mm["last"], [])) == 1
+            # the working copy must not be read after the loop and M must not be re-bound
+            after = [x for x in walk_local(fi.node) if isinstance(x, ast.Name) and x.id == g and isinstance(x.ctx, ast.Load) and lp_ is not None
+                     and x.lineno > max(getattr(y, "lineno", 0) for y in ast.walk(lp_))]
+            last_def = fdefs.get(mm["last"], [None])[0]
+            m_stable = last_def is not None and all(getattr(d_.stmt, "lineno", 0) < last_def.stmt.lineno for d_ in fdefs.get(em["M"], []) if d_.kind != "param") if em else False
+            if counter_ok and last_ok and not after and m_stable and last_def.stmt.lineno < lp_.lineno:
+                res = [(n, b)]
     apps = [n for n, b in pfind("$l.append($x)", fi.node, into_nested=False) if res and b["x"] == res[0][1]["its"]]
     rets = returns_of(fi.node)
     ok = len(res) == 1 and len(apps) == 1 and bool(rets) and norm(rets[-1].value) == norm(apps[0].func.value)
